@@ -39,7 +39,7 @@ CBMC_BASE = ['--no-malloc-may-fail', '--no-undefined-shift-check', '--no-signed-
 # crates that hold harnesses: name -> (manifest dir, package, needs guard cfg)
 CRATES = {
     'ext': dict(dir=os.path.join(VERIF, 'harness', 'ext'), package='verif-ext', guard=False),
-    'vm': dict(dir=os.path.join(REPO, 'fuel-vm'), package='fuel-vm', guard=True),
+    'vm': dict(dir=os.path.join(REPO, 'fuel-vm'), package='fuel-vm', guard=True, features='test-helpers'),
     'crypto': dict(dir=os.path.join(REPO, 'fuel-crypto'), package='fuel-crypto', guard=True),
 }
 
@@ -61,6 +61,13 @@ class BuildError(Exception):
     pass
 
 
+def write_stamp(crate):
+    d = os.path.join(VERIF, 'harness', 'ext', 'src') if crate == 'ext' else os.path.join(VERIF, 'harness', 'incrate')
+    with open(os.path.join(d, 'build_stamp.rs'), 'w') as f:
+        f.write('// rewritten before every build (forces recompilation of the harness crate)\n'
+                'pub const VERIF_BUILD_STAMP: u128 = %d;\n' % time.time_ns())
+
+
 def build(crate, filters, rundir, extra_args=()):
     """Codegen the harnesses matching `filters` (substring filters) and copy their goto
     symtabs into rundir.  Returns list of harness metadata dicts (with 'symtab' path)."""
@@ -75,6 +82,8 @@ def build(crate, filters, rundir, extra_args=()):
            '--no-assertion-reach-checks', '--target-dir', tdir]
     if crate != 'ext':
         cmd += ['-p', c['package']]
+    if c.get('features'):
+        cmd += ['--features', c['features']]
     for f in filters:
         cmd += ['--harness', f]
     cmd += list(extra_args)
@@ -82,6 +91,11 @@ def build(crate, filters, rundir, extra_args=()):
     fcntl.flock(lockf, fcntl.LOCK_EX)
     try:
         t0 = time.time()
+        # Force recompilation of the harness-holding crate: Kani writes per-harness goto files
+        # under names that do not depend on the harness filter, so a cargo-"fresh" build could
+        # leave artefacts of a different filter behind.  The stamp file is include!d by the
+        # harness code (ext: src/lib.rs; in-crate: the /verif/harness/incrate/*.rs files).
+        write_stamp(crate)
         cwd = c['dir'] if crate == 'ext' else REPO
         p = subprocess.run(cmd, cwd=cwd, env=env_for(crate), stdout=subprocess.PIPE,
                            stderr=subprocess.STDOUT, text=True)
@@ -273,7 +287,7 @@ def trace_inputs(trace, limit=40):
         lhs = st.get('lhs', '')
         fn = st.get('sourceLocation', {}).get('function', '') or ''
         # kani::any_raw_* internal results: `var_N` inside kani::any_raw..., keep harness-level ones
-        if 'any_raw' in fn or 'any_raw' in lhs:
+        if lhs.startswith('goto_symex$$return_value') and 'any_raw' in lhs:
             v = st.get('value', {})
             data = v.get('data') if isinstance(v, dict) else None
             if data is None and isinstance(v, dict):
